@@ -14,8 +14,10 @@ Correspondence (model = lean/TPV/Model/DeepONet.lean through lean/drivers/C09.le
 Property oracles (run on every case, independent of the Lean model):
   O1 out[i,j,c] == sum_k branchfeat[i, c*K+k] * trunkfeat[j, c*K+k]  (reference MLP in numpy from the parameters)
   O2 batch independence: function i alone / location j alone / permuted batches give the same numbers
-  O3 every way of supplying the same input functions gives the same output
-  O4 fast trunk == plain trunk with the same weights: outputs, 1st and 2nd input derivatives, parameter
+  O3 every way of supplying the same input functions gives the same output (incl. callables / function-set functions
+     that are plain functions, lambdas, callable objects, bound methods with 0-3 declared defaults of different values)
+  O4 (under a generated requires_grad pattern over all trunk/branch parameters, None / zero / value judged per parameter)
+     fast trunk == plain trunk with the same weights: outputs, 1st and 2nd input derivatives, parameter
      gradients of a loss that contains both derivatives; single layer: also double backward
 """
 import json
@@ -136,6 +138,30 @@ def gen_gains(rng, n):
     return [rng.choice([0.5, 1.0, 5 / 3]) for _ in range(n)]
 
 
+def gen_req(rng, case, nt, nb):
+    """requires_grad pattern over the parameter tensors [W0, b0, W1, b1, ...] of trunk and branch"""
+    pat = rng.choice(["all", "all", "weights", "biases", "trunk-biases", "trunk-layer-frozen", "one-trunk-bias",
+                      "one-trunk-weight", "branch-only", "random", "random"])
+    rt, rb = [1] * (2 * nt), [1] * (2 * nb)
+    if pat == "weights":
+        rt, rb = [1, 0] * nt, [1, 0] * nb
+    elif pat == "biases":
+        rt, rb = [0, 1] * nt, [0, 1] * nb
+    elif pat == "trunk-biases":
+        rt = [0, 1] * nt
+    elif pat == "trunk-layer-frozen":
+        i = rng.randrange(nt); rt[2 * i] = rt[2 * i + 1] = 0
+    elif pat == "one-trunk-bias":
+        rt, rb = [0] * (2 * nt), [0] * (2 * nb); rt[2 * rng.randrange(nt) + 1] = 1
+    elif pat == "one-trunk-weight":
+        rt, rb = [0] * (2 * nt), [0] * (2 * nb); rt[2 * rng.randrange(nt)] = 1
+    elif pat == "branch-only":
+        rt = [0] * (2 * nt)
+    elif pat == "random":
+        rt = [rng.randint(0, 1) for _ in rt]; rb = [rng.randint(0, 1) for _ in rb]
+    case.update(req_pattern=pat, req_trunk=rt, req_branch=rb)
+
+
 def gen_net(ctx, idx):
     rng = ctx.rng
     din = rng.choice([1, 2, 2, 3])
@@ -151,18 +177,21 @@ def gen_net(ctx, idx):
     B = rng.choice([1, 1, 2, 3, 4])
     N = rng.randint(1, 5)
     rank = rng.choice(["r2", "r3x1", "r3xB"])
-    params = [[dy(rng, -16, 16), dy(rng, -16, 16)] for _ in range(B)]
+    params = [[dy(rng, -16, 16), dy(rng, -16, 16), dy(rng, -16, 16)] for _ in range(B)]
     pts = sorted({dy(rng, 0, 16) for _ in range(npts * 3)})[:npts]
     while len(pts) < npts:
         pts.append(pts[-1] + 1 / DEN)
-    variants = ["tensor3", "points3", "functionset"]
+    variants = ["tensor3", "points3", "functionset", "functionset_d"]
     if B == 1:
-        variants += ["tensor2", "points2", "callable"]
+        variants += ["tensor2", "points2", "callable", "callable_d"]
     if B >= 2:
         variants += ["collection"]
     case = dict(kind="net", din=din, d=d, neurons=neurons, trunk_hidden=th, branch_hidden=bh, fdim=fdim,
                 B=B, N=N, rank=rank, params=params, pts=[[p] for p in pts],
                 tacts=tacts, tform=tform, bacts=bacts, bform=bform,
+                req_pattern=None,
+                cdef=[rng.choice(["function", "lambda", "object", "method"]), rng.choice([1, 2, 2, 3, 3])],
+                fsdef=[rng.choice(["function", "lambda", "object", "method"]), rng.choice([2, 3])],
                 tgains=gen_gains(rng, len(th)), bgains=gen_gains(rng, len(bh)),
                 trunk=gen_layers(rng, [din] + th + [neurons]),
                 branch=gen_layers(rng, [npts * fdim] + bh + [neurons]),
@@ -171,6 +200,7 @@ def gen_net(ctx, idx):
                 pick=[rng.randrange(B), rng.randrange(N)], perm_seed=rng.randrange(10 ** 6),
                 A_seed=rng.randrange(10 ** 6))
     # malformed stream: a tensor with a wrong number of discretisation points (re-cut or rejected)
+    gen_req(rng, case, len(th) + 1, len(bh) + 1)
     # Sequential(NormalizationLayer, trunk): the other finalize path of DeepONet (box [-2,2]^din: x -> x/2 exactly)
     case["seq"] = din <= 2 and idx % 6 == 5
     if idx % 12 == 11:
@@ -185,7 +215,7 @@ def gen_uniq(ctx, idx):
     rng = ctx.rng
     case["kind"] = "uniq"
     case["B"] = B = rng.choice([2, 3, 4])
-    case["params"] = [[dy(rng, -16, 16), dy(rng, -16, 16)] for _ in range(B)]
+    case["params"] = [[dy(rng, -16, 16), dy(rng, -16, 16), dy(rng, -16, 16)] for _ in range(B)]
     case["primary"] = "tensor3"
     case["rank"] = "r3uniq"
     case["xu"] = [[[dy(rng, -32, 32) for _ in range(case["din"])] for _ in range(case["N"])] for _ in range(B)]
@@ -219,8 +249,8 @@ def gen_hist(ctx, idx):
     if rng.random() < 0.25:
         sizes[-1] = B + 1
     ndraw = 8
-    case["sets"] = [[[[dy(rng, -16, 16), dy(rng, -16, 16)] for _ in range(sz)] for _ in range(ndraw)] for sz in sizes]
-    case["fixed"] = [[[dy(rng, -16, 16), dy(rng, -16, 16)] for _ in range(rng.choice([1, B]))] for _ in range(3)]
+    case["sets"] = [[[[dy(rng, -16, 16), dy(rng, -16, 16), dy(rng, -16, 16)] for _ in range(sz)] for _ in range(ndraw)] for sz in sizes]
+    case["fixed"] = [[[dy(rng, -16, 16), dy(rng, -16, 16), dy(rng, -16, 16)] for _ in range(rng.choice([1, B]))] for _ in range(3)]
     sizes_t = [case["din"]] + case["trunk_hidden"] + [case["neurons"]]
     sizes_b = [len(case["pts"]) * case["fdim"]] + case["branch_hidden"] + [case["neurons"]]
     case["models"] = [dict(trunk=case["trunk"], branch=case["branch"])] + \
@@ -268,7 +298,8 @@ def gen_lin(ctx, idx):
     b = [dy(rng, -8, 8, 4) for _ in range(nout)] if rng.random() < 0.8 else None
     g = [[[dy(rng, -8, 8, 4) for _ in range(nout)] for _ in range(rows)] for _ in range(copies)]
     v = [[[dy(rng, -8, 8, 4) for _ in range(nin)] for _ in range(rows)] for _ in range(copies)]
-    return dict(kind="lin", rank=rank, shared=shared, x=x, W=W, b=b, g=g, v=v)
+    req = rng.choice([[1, 1, 1], [0, 0, 1], [0, 0, 1], [1, 0, 1], [0, 1, 0], [1, 0, 0], [1, 1, 0], [0, 1, 1]])
+    return dict(kind="lin", rank=rank, shared=shared, x=x, W=W, b=b, g=g, v=v, req=req)
 
 
 def gen_mesh(ctx, idx):
@@ -352,22 +383,67 @@ def t64(x):
 
 
 def fval(k, t, fdim):
-    """the input function family, evaluated exactly (dyadic data): f(k, t) in R^fdim"""
-    out = [k[0] + k[1] * t]
+    """the input function family, evaluated exactly (dyadic data): f(k, t) in R^fdim, three parameters"""
+    out = [k[0] + k[1] * t + k[2] * t * t]
     if fdim == 2:
-        out.append(k[0] * t * t - k[1])
+        out.append(k[0] * t * t - k[1] + k[2] * t)
     return out
 
 
-def fn_torch(fdim):
+def formula(fdim):
     torch = env()["torch"]
 
-    def f(k, t):
-        cols = [k[..., 0:1] + k[..., 1:2] * t]
+    def F(t, k0, k1, k2):
+        cols = [k0 + k1 * t + k2 * t * t]
         if fdim == 2:
-            cols.append(k[..., 0:1] * t * t - k[..., 1:2])
+            cols.append(k0 * t * t - k1 + k2 * t)
         return torch.cat(cols, dim=-1)
+    return F
+
+
+def fn_torch(fdim):
+    F = formula(fdim)
+
+    def f(k, t):
+        return F(t, k[..., 0:1], k[..., 1:2], k[..., 2:3])
     return f
+
+
+def make_callable(fdim, k, kind, nd):
+    """the function t -> f(k, t) as a callable whose LAST `nd` of the three parameters are declared defaults
+    (different values), the others constants; kind: function / lambda / object (__call__) / method (bound)"""
+    names = ["k0", "k1", "k2"]
+    sig = "".join(f", {n}={float(v)!r}" for n, v in list(zip(names, k))[3 - nd:])
+    args = ", ".join(n if i >= 3 - nd else repr(float(k[i])) for i, n in enumerate(names))
+    ns = dict(F=formula(fdim))
+    if kind == "function":
+        exec(f"def g(t{sig}):\n    return F(t, {args})", ns)
+        return ns["g"]
+    if kind == "lambda":
+        exec(f"g = lambda t{sig}: F(t, {args})", ns)
+        return ns["g"]
+    if kind == "object":
+        exec(f"class G:\n    def __call__(self, t{sig}):\n        return F(t, {args})\ng = G()", ns)
+        return ns["g"]
+    exec(f"class G:\n    def evaluate(self, t{sig}):\n        return F(t, {args})\ng = G().evaluate", ns)
+    return ns["g"]
+
+
+def make_set_function(fdim, kind, nd):
+    """the function (k, t) -> f(k, t) of a function set with `nd` further declared defaults of different, NEUTRAL
+    values (u0 = 0 is added, u1 = 1 and u2 - 1 = 1 are multiplied): any mix-up of the defaults changes the values"""
+    sig = ", u0=0.0, u1=1.0" + (", u2=2.0" if nd == 3 else "")
+    body = "(B(k, t) + u0) * u1" + (" * (u2 - 1.0)" if nd == 3 else "")
+    ns = dict(B=fn_torch(fdim))
+    if kind == "function":
+        exec(f"def g(k, t{sig}):\n    return {body}", ns)
+    elif kind == "lambda":
+        exec(f"g = lambda k, t{sig}: {body}", ns)
+    elif kind == "object":
+        exec(f"class G:\n    def __call__(self, k, t{sig}):\n        return {body}\ng = G()", ns)
+    else:
+        exec(f"class G:\n    def evaluate(self, k, t{sig}):\n        return {body}\ng = G().evaluate", ns)
+    return ns["g"]
 
 
 def act_modules(codes, form):
@@ -415,7 +491,7 @@ def spaces_of(case):
     U = {1: S.R1, 2: S.R2, 3: S.R3}[case["d"]]("u")
     Fo = {1: S.R1, 2: S.R2}[case["fdim"]]("f")
     Ti = S.R1("t")
-    Kp = S.R2("k")
+    Kp = S.R3("k")
     return T, U, Fo, Ti, Kp
 
 
@@ -464,15 +540,13 @@ def supply(case, variant, fs, params=None):
         return tp.spaces.Points(t64(vals[0]), Fo)
     if variant == "callable":
         k = params[0]
-        fdim = case["fdim"]
-        torch = e["torch"]
-
-        def g(t):
-            cols = [k[0] + k[1] * t]
-            if fdim == 2:
-                cols.append(k[0] * t * t - k[1])
-            return torch.cat(cols, dim=-1)
-        return g
+        F = formula(case["fdim"])
+        return lambda t: F(t, k[0], k[1], k[2])
+    if variant == "callable_d":
+        return make_callable(case["fdim"], params[0], *case["cdef"])
+    if variant == "functionset_d":
+        return tp.domains.CustomFunctionSet(fs, e["Fixed"](tp.spaces.Points(t64(params), Kp)),
+                                            make_set_function(case["fdim"], *case["fsdef"]))
     if variant == "functionset":
         return tp.domains.CustomFunctionSet(fs, e["Fixed"](tp.spaces.Points(t64(params), Kp)), fn_torch(case["fdim"]))
     if variant == "collection":
@@ -602,7 +676,9 @@ def run_net(case):
             continue
         res["variants"][v] = maxdiff(ov, out)
         if maxdiff(ov, out) > 1e-12:
-            res["problems"].append(f"branch input supplied as {v} gives a different output than supplied as {case['primary']} "
+            how = {"callable_d": f" ({case['cdef'][0]} with {case['cdef'][1]} declared defaults of different values)",
+                   "functionset_d": f" (function set of a {case['fsdef'][0]} with {case['fsdef'][1]} declared defaults)"}.get(v, "")
+            res["problems"].append(f"branch input supplied as {v}{how} gives a different output than supplied as {case['primary']} "
                                    f"(max relative difference {maxdiff(ov, out):.3g})")
 
     # ---- O2: batch independence (function i alone, location j alone; permuted batches)
@@ -632,26 +708,49 @@ def run_net(case):
     xs_shape = tuple(trunk_tensor(case).shape)
     Bm = torch.randint(-8, 9, xs_shape, generator=gen).double() / 8
 
+    def fc_params(net):
+        """parameter tensors of the FC trunk and of the branch, in the order of the generated masks"""
+        tr = net.trunk.models[-1] if case.get("seq") else net.trunk
+        return list(tr.parameters()), list(net.branch.parameters())
+
     def derivs(net):
-        x = trunk_tensor(case).clone().requires_grad_(True)
-        u = net(tp.spaces.Points(x, T), supply(case, "tensor3", fs)).as_tensor
-        g = torch.autograd.grad((A * u).sum(), x, create_graph=True)[0]
-        # with piecewise linear activations (ReLU, identity) only the first derivative may not depend on x at all
-        if g.requires_grad:
-            h = torch.autograd.grad((Bm * g).sum(), x, create_graph=True, allow_unused=True)[0]
-        else:
-            h = None
-        if h is None:
-            h = torch.zeros_like(x)
-        L = (u ** 2).mean() + (g ** 2).mean() + (h ** 2).mean()
-        ps = list(net.parameters())
-        pg = torch.autograd.grad(L, ps, allow_unused=True)
-        return u.tolist(), g.tolist(), h.tolist(), [(torch.zeros_like(p) if t is None else t).tolist() for p, t in zip(ps, pg)]
+        """output, 1st/2nd input derivative, and `.grad` of EVERY parameter after `loss.backward()` under the
+        requires_grad pattern of the case (None = the engine delivered no gradient)"""
+        tps, bps = fc_params(net)
+        allp = list(net.parameters())
+        try:
+            for p_, r in zip(tps, case["req_trunk"]):
+                p_.requires_grad_(bool(r))
+            for p_, r in zip(bps, case["req_branch"]):
+                p_.requires_grad_(bool(r))
+            for p_ in allp:
+                p_.grad = None
+            x = trunk_tensor(case).clone().requires_grad_(True)
+            u = net(tp.spaces.Points(x, T), supply(case, "tensor3", fs)).as_tensor
+            g = torch.autograd.grad((A * u).sum(), x, create_graph=True)[0]
+            # with piecewise linear activations (ReLU, identity) only the first derivative may not depend on x at all
+            if g.requires_grad:
+                h = torch.autograd.grad((Bm * g).sum(), x, create_graph=True, allow_unused=True)[0]
+            else:
+                h = None
+            if h is None:
+                h = torch.zeros_like(x)
+            L = (u ** 2).mean() + (g ** 2).mean() + (h ** 2).mean()
+            L.backward()
+            pg = [None if p_.grad is None else p_.grad.tolist() for p_ in allp]
+            names_ = [n for n, _ in net.named_parameters()]
+            return u.tolist(), g.tolist(), h.tolist(), pg, names_, [bool(p_.requires_grad) for p_ in allp]
+        finally:
+            for p_ in allp:
+                p_.requires_grad_(True)
+                p_.grad = None
+
+    def zeros_like_list(v):
+        return [zeros_like_list(w) for w in v] if isinstance(v, list) else 0.0
 
     try:
         da, db = derivs(fast), derivs(plain)
-        names = ["output", "first derivative w.r.t. the trunk input", "second derivative w.r.t. the trunk input",
-                 "parameter gradient of mean(u^2)+mean(u_x^2)+mean(u_xx^2)"]
+        names = ["output", "first derivative w.r.t. the trunk input", "second derivative w.r.t. the trunk input"]
         res["o4"] = []
         for nm, a, b in zip(names, da, db):
             dd = maxdiff(a, b)
@@ -659,6 +758,31 @@ def run_net(case):
             if dd > 1e-8:
                 res["problems"].append(f"fast trunk path differs from the plain network with the same weights in the {nm} "
                                        f"(max relative difference {dd:.3g})")
+        # parameter gradients, judged per parameter: value vs value, None vs None, None vs (non-)zero value
+        worst = 0.0
+        pattern = f"requires_grad pattern trunk={case['req_trunk']} branch={case['req_branch']}"
+        for ga, gb, nm, req in zip(da[3], db[3], da[4], da[5]):
+            if ga is None and gb is None:
+                res.setdefault("pg_kinds", []).append("none=none")
+                continue
+            if ga is None or gb is None:
+                other = gb if ga is None else ga
+                if maxdiff(other, zeros_like_list(other)) == 0.0:
+                    res.setdefault("pg_kinds", []).append("none~zero")
+                    continue
+                who = "fast" if ga is None else "plain"
+                res["problems"].append(
+                    f"parameter gradient of mean(u^2)+mean(u_x^2)+mean(u_xx^2): the {who} trunk path delivers NO gradient (None) for "
+                    f"parameter {nm} (requires_grad={req}), the other path delivers {str(other)[:80]}; {pattern}")
+                worst = math.inf
+                continue
+            res.setdefault("pg_kinds", []).append("value=value")
+            dd = maxdiff(ga, gb)
+            worst = max(worst, dd)
+            if dd > 1e-8:
+                res["problems"].append(f"fast trunk path differs from the plain network with the same weights in the parameter gradient of "
+                                       f"mean(u^2)+mean(u_x^2)+mean(u_xx^2) for parameter {nm} (max relative difference {dd:.3g}); {pattern}")
+        res["o4"].append(worst if worst != math.inf else 1e300)
         res["grad1"] = da[1]
     except Exception as ex:
         res["problems"].append(f"differentiating through the DeepONet raised {type(ex).__name__}: {str(ex)[:160]}")
@@ -933,6 +1057,12 @@ def judge_net(rep, case, res, replies):
     if case.get("seq"):
         rep.count("net:sequential-trunk")
     rep.count("net:primary=" + case["primary"])
+    rep.count("net:requires_grad pattern=" + str(case.get("req_pattern")))
+    for kk in res.get("pg_kinds", []):
+        rep.count("net:parameter gradient fast/plain " + kk)
+    if "callable_d" in case["variants"]:
+        rep.count(f"net:callable with {case['cdef'][1]} defaults ({case['cdef'][0]})")
+    rep.count(f"net:function set with {case['fsdef'][1]} defaults ({case['fsdef'][0]})")
     rep.count(f"net:d={case['d']}")
     rep.count(f"net:trunk-hidden-layers={len(case['trunk_hidden'])}")
     rep.count("net:trunk-activations=" + ("one object" if case["tform"] == "single" else
@@ -1060,6 +1190,40 @@ def run_lin(case):
                 continue
             if a != b:
                 res["problems"].append(f"TrunkLinear differs from torch.nn.Linear with the same weights on a shared input in the {nm}: {a} vs {b}")
+        # the same layer under a requires_grad pattern (input, weight, bias): `.grad` after backward, None / zero / value
+        req = case.get("req", [1, 1, 1])
+        if any(req) and not all(req):
+            def flagged(m):
+                x = t64(case["x"]).requires_grad_(bool(req[0]))
+                m.weight.requires_grad_(bool(req[1]))
+                if has_b:
+                    m.bias.requires_grad_(bool(req[2]))
+                y = m(x)
+                if not y.requires_grad:
+                    return None
+                gy = t64(case["g"])
+                y.backward(gy if y.dim() == 3 else gy[0])
+                ts = [("input", x), ("weight", m.weight)] + ([("bias", m.bias)] if has_b else [])
+                return {n: (None if t.grad is None else t.grad.tolist()) for n, t in ts}
+            try:
+                ga, gb_ = flagged(mk(TrunkLinear)), flagged(mk(torch.nn.Linear))
+            except Exception as ex:
+                res["problems"].append(f"TrunkLinear with requires_grad (input, weight, bias)={req} raised {type(ex).__name__}: {str(ex)[:120]}")
+                return res
+            if (ga is None) != (gb_ is None):
+                res["problems"].append(f"requires_grad (input, weight, bias)={req}: one of TrunkLinear / nn.Linear produced an output without graph")
+            elif ga is not None:
+                for n in ga:
+                    a, b = ga[n], gb_[n]
+                    if a == b:
+                        continue
+                    zero = lambda v: v is None or maxdiff(v, [[0.0] * len(r) for r in v] if isinstance(v[0], list) else [0.0] * len(v)) == 0.0
+                    if n == "input" and a is not None and b is not None and _depth(a) != _depth(b):
+                        continue
+                    if zero(a) and zero(b):
+                        continue
+                    res["problems"].append(f"requires_grad (input, weight, bias)={req}: gradient of the {n} after backward: "
+                                           f"TrunkLinear {a} vs torch.nn.Linear {b}")
     return res
 
 
@@ -1070,6 +1234,7 @@ def lin_line(case):
 
 def judge_lin(rep, case, res, reply):
     rep.count(f"lin:rank={case['rank']}:shared={int(case['shared'])}:bias={int(case['b'] is not None)}")
+    rep.count(f"lin:requires_grad(input,weight,bias)={case.get('req')}")
     for p in res["problems"]:
         rep.fail(p, case)
     f = res["fast"]
